@@ -516,7 +516,7 @@ func coalWitnessMain(args []string) {
 	tr := tracer{w}
 	srv := startTellServer(remoteclient.NewClient().Serializer(nil))
 	srv.tr.Store(&tr)
-	held, through, broken := 0, 0, 0
+	held, through, broken, early := 0, 0, 0, 0
 	for r := 0; r < rounds; r++ {
 		tr.put(line{Op: "New", B: 1})
 		s := sched.New()
@@ -572,7 +572,19 @@ func coalWitnessMain(args []string) {
 				step("x", "coal.close.wait")
 			} else {
 				held++
-				step("p1", "coal.submit.fast") // send, return, release the lock: Close can go on
+				// Close waits. The writer must not have been told to stop yet: released into its select it
+				// has to block (channel empty, stop open) until p1's message arrives.
+				_ = s.Release(wname)
+				if pw, parked := s.TryAwait(wname, 150*time.Millisecond); parked {
+					early++ // the writer got through its select: it was stopped while a submit is in flight
+					if !pw.Done {
+						step(wname, "coal.run.drain") // final drain finds nothing: the writer leaves
+					}
+					step("p1", "coal.submit.fast") // the send succeeds behind the writer's back
+				} else {
+					step("p1", "coal.submit.fast") // send, return, release the lock: Close can go on
+					_, _ = s.Await(wname)          // the writer received the message
+				}
 				_, _ = s.Await("x")
 			}
 		} else {
@@ -595,7 +607,8 @@ func coalWitnessMain(args []string) {
 	if err := w.Close(); err != nil {
 		fatal(err)
 	}
-	fmt.Printf("{\"rounds\":%d,\"close_held_back\":%d,\"close_went_through\":%d,\"unexpected_shape\":%d,\"events\":%d}\n", rounds, held, through, broken, n)
+	fmt.Printf("{\"rounds\":%d,\"close_held_back\":%d,\"close_went_through\":%d,\"writer_stopped_early\":%d,\"unexpected_shape\":%d,\"events\":%d}\n",
+		rounds, held, through, early, broken, n)
 }
 
 func coalReplayMain(args []string) {
